@@ -119,6 +119,7 @@ static bool parseClass(const S & p, size_t & i, Node & n, DocPattern & dp)   // 
       if ((c == '[')&&(i+1 < p.size())&&((p[i+1]=='.')||(p[i+1]==':')||(p[i+1]=='='))) return false;
       if (strchr(",.+*?\\", c)) dp.classMeta = true;
       if (c == '\\') dp.classMetaComplex = true;
+      if ((c == '[')&&(i+1 < p.size())&&((p[i+1] == '*')||(p[i+1] == '?'))) dp.classMetaComplex = true;   // the translation turns it into "[." (a POSIX collating symbol)
       if ((i+2 < p.size())&&(p[i+1] == '-')&&(p[i+2] != ']'))
       {
          unsigned char d = (unsigned char) p[i+2];
